@@ -16,6 +16,7 @@ INST = {
 # unit name -> (template, inst)
 UNITS = {
     "drv": ("units/drv.rs", None),
+    "drvo": ("units/drvo.rs", None),
     "final": ("units/final.rs", None),
     "rank": ("units/rank.rs", None),
     "agg": ("units/agg.rs", None),
@@ -48,7 +49,7 @@ PLAN = {
         level="proof",
     ),
     "C02": dict(
-        verus=dict(quick=["drv"], thorough=["drv"]),
+        verus=dict(quick=["drv", "drvo"], thorough=["drv", "drvo"]),
         kani=dict(quick=[], thorough=[]),
         level="proof",
     ),
@@ -114,7 +115,7 @@ PLAN["C09"] = dict(
     level="proof",
 )
 PLAN["C10"] = dict(
-    verus=dict(quick=["drv", "cmp", "rank", "quant"], thorough=["drv", "cmp", "rank", "quant"]),
+    verus=dict(quick=["drv", "drvo", "cmp", "rank", "quant"], thorough=["drv", "drvo", "cmp", "rank", "quant"]),
     kani=dict(quick=[], thorough=[]),
     level="proof",
 )
@@ -150,7 +151,7 @@ PLAN["C11"] = dict(
 )
 
 PLAN["C07"] = dict(
-    verus=dict(quick=["drv", "feat.of64", "cmp"], thorough=["drv", "feat.of64", "feat.f64", "cmp"]),
+    verus=dict(quick=["drv", "drvo", "feat.of64", "cmp"], thorough=["drv", "drvo", "feat.of64", "feat.f64", "cmp"]),
     kani=dict(quick=["backend_bounded"], thorough=["backend_bounded"]),
     level="proof",
 )
@@ -182,13 +183,13 @@ def kani_for(prop, tier):
 _V = "Verus discharges every obligation generated from the functions extracted from /repo's current text, for all inputs and all iterations"
 DETAILS = {
     "C01": dict(text=_V + ": state-describes-window invariant and textbook closed form of the 16 rolling closures (ts_v{sum,mean,var,std,skew,kurt,wma,ewm}_to in two null encodings, plain ts_* family) over the driver contract.",
-                note="A-REAL (floats as reals, no rounding); the Option-form driver contract (rolling_apply with out: Option) is assumed; fdiff not covered",
-                not_covered=["ts_fdiff / fdiff_coef", "Option-form / iterator-form driver bodies (assumed contract)"],
-                assumptions=["A-REAL", "A-ITER", "A-LEN", "A-MONO", "A-EXTRACT", "A-TOOLS", "assumed RollingDrivers contract"]),
-    "C02": dict(text=_V + ": trace and stored-exactly-once postconditions of rolling_apply_to, rolling2_apply_to, rolling_apply_idx_to, rolling2_apply_idx_to, rolling_custom_to.",
-                note="the iterator-form bodies and the Vec fast paths are covered by an assumed contract only",
-                not_covered=["rolling_apply / rolling2_apply / rolling_apply_idx iterator-form bodies", "Vec / slice fast paths of impl_vec1!"],
-                assumptions=["A-EXTRACT", "A-TOOLS"]),
+                note="A-REAL (floats as reals, no rounding); the driver contract the closures are verified against is proved in units drv / drvo; fdiff not covered",
+                not_covered=["ts_fdiff / fdiff_coef"],
+                assumptions=["A-REAL", "A-ITER", "A-LEN", "A-MONO", "A-EXTRACT", "A-TOOLS"]),
+    "C02": dict(text=_V + ": trace and stored-exactly-once postconditions of the caller-buffer drivers rolling_apply_to, rolling2_apply_to, rolling_apply_idx_to, rolling2_apply_idx_to, rolling_custom_to, and of the Option-dispatching / iterator-form drivers rolling_apply, rolling2_apply, rolling_apply_idx (leading Nones, FIFO removal column, delivery to the buffer or as a new container); the trait contract every client unit relies on is discharged by these functions.",
+                note="the stateful Iterator::map + trusted collector of the iterator forms is modelled eagerly (A-ITER, rollmodel.rs); the Vec fast paths of impl_vec1! and rolling2_apply_idx (iterator form) are not under contract",
+                not_covered=["Vec / slice fast paths of impl_vec1!", "rolling2_apply_idx iterator form", "rolling_custom / rolling_custom_iter iterator forms"],
+                assumptions=["A-ITER", "A-EXTRACT", "A-TOOLS"]),
     "C03": dict(text=_V + ": cached-extreme invariants and window-function postconditions of ts_vmin/vmax/vargmin/vargmax_to (exact).",
                 note="ts_vrank, ts_vzscore, ts_vminmaxnorm are not under contract",
                 not_covered=["ts_vrank", "ts_vzscore", "ts_vminmaxnorm"], assumptions=["A-REAL (comparisons only)", "A-LEN", "A-EXTRACT", "A-TOOLS"]),
@@ -203,7 +204,7 @@ DETAILS = {
     "C07": dict(text=_V + ": the drivers are proved against the abstract Vec1View contract (any backend satisfying it gives the same trace) and every _to function delivers the same values whether returned or written to the caller's buffer (delivered_each).  Kani (BOUNDED, 3-4 elements) checks that Vec, fixed array and VecDeque at 4 head offsets satisfy the accessor part of that contract.",
                 note="the backend part is bounded; ndarray, Polars and Arc backends are not compiled / not covered",
                 not_covered=["ndarray backend", "Polars backend", "Arc wrappers", "option view", "backend-specific fast-path overrides"],
-                assumptions=["A-REAL", "A-EXTRACT", "A-TOOLS", "assumed RollingDrivers contract"]),
+                assumptions=["A-REAL", "A-ITER", "A-EXTRACT", "A-TOOLS"]),
     "C08": dict(text=_V + ": all null-aware contracts are stated over vals() (NaN and None are the same null); lemmas: the two encodings of a series have the same vals(), cnt and power sums are invariant under inserting / deleting nulls.  Kani (BOUNDED, length <= 3-4) compares the two encodings and an inserted null on the real code.",
                 note="canonical nulls only (Some(NaN) excluded, DESIGN 5.4)", not_covered=["pairwise deletion beyond ts_vcov / ts_vcorr", "percentile ranks", "f32 / Option<i32> output encodings"],
                 assumptions=["A-REAL", "A-ITER", "A-MONO", "A-EXTRACT", "A-TOOLS"]),
